@@ -131,7 +131,14 @@ class SimLock:
         if self.reentrant and self.owner == me:
             self.count += 1
             return True
-        if not blocking or (timeout is not None and timeout >= 0):
+        if not blocking:
+            return False
+        if timeout is not None and timeout >= 0:
+            if cl is not None and cl.op is not None:
+                cl.yield_now()
+                if self.owner is None:
+                    self.owner, self.count = me, 1
+                    return True
             return False
         if cl is None or cl.op is None:
             raise RuntimeError("[sim] lock held by %r would block a non-simulated thread forever"
@@ -162,10 +169,165 @@ class SimRLock(SimLock):
     reentrant = True
 
 
+class SimEvent:
+    def __init__(self):
+        self._flag = False
+
+    def is_set(self):
+        return self._flag
+
+    isSet = is_set
+
+    def set(self):
+        self._flag = True
+
+    def clear(self):
+        self._flag = False
+
+    def wait(self, timeout=None):
+        cl = current_client()
+        if cl is not None and cl.op is not None:
+            cl.on_sync("event-wait")
+        if self._flag:
+            return True
+        if cl is None or cl.op is None:
+            return self._flag
+        if timeout is not None:
+            # a timed wait: everybody else runs first, then it may time out
+            cl.yield_now()
+            return self._flag
+        cl.wait_for(lambda: self._flag)
+        return True
+
+
+class SimCondition:
+    """Condition with notify == notify_all (spurious wake-ups are allowed by
+    the Condition contract)."""
+
+    def __init__(self, lock=None):
+        self._lock = lock if lock is not None else SimRLock()
+        self._gen = 0
+        self.acquire = self._lock.acquire
+        self.release = self._lock.release
+
+    def __enter__(self):
+        return self._lock.__enter__()
+
+    def __exit__(self, *a):
+        return self._lock.__exit__(*a)
+
+    def wait(self, timeout=None):
+        cl = current_client()
+        gen = self._gen
+        owner, count = self._lock.owner, self._lock.count
+        self._lock.owner, self._lock.count = None, 0
+        try:
+            if cl is not None and cl.op is not None:
+                cl.on_sync("cond-wait")
+                if timeout is None:
+                    cl.wait_for(lambda: self._gen != gen)
+            return self._gen != gen
+        finally:
+            if cl is not None and cl.op is not None and self._lock.owner is not None:
+                cl.wait_for(lambda: self._lock.owner is None)
+            self._lock.owner, self._lock.count = owner, count
+
+    def wait_for(self, predicate, timeout=None):
+        r = predicate()
+        while not r:
+            self.wait(timeout)
+            r = predicate()
+            if timeout is not None:
+                break
+        return r
+
+    def notify(self, n=1):
+        self._gen += 1
+
+    def notify_all(self):
+        self._gen += 1
+
+    notifyAll = notify_all
+
+
+class SimSemaphore:
+    def __init__(self, value=1):
+        self._value = value
+
+    def acquire(self, blocking=True, timeout=None):
+        cl = current_client()
+        if cl is not None and cl.op is not None:
+            cl.on_sync("sem-acquire")
+        if self._value <= 0:
+            if not blocking or timeout is not None or cl is None or cl.op is None:
+                return False
+            cl.wait_for(lambda: self._value > 0)
+        self._value -= 1
+        return True
+
+    def release(self, n=1):
+        self._value += n
+
+    def __enter__(self):
+        self.acquire()
+        return self
+
+    def __exit__(self, *a):
+        self.release()
+
+
+class _TimeProxy:
+    """`time` as the library sees it: a simulated clock (advanced by sleeps and
+    a microsecond per reading) and sleeps that yield to the scheduler."""
+
+    def __init__(self):
+        self.now = 1.7e9
+
+    def reset(self):
+        self.now = 1.7e9
+
+    def sleep(self, secs):
+        self.now += max(0.0, float(secs))
+        cl = current_client()
+        if cl is not None and cl.op is not None:
+            cl.yield_now()
+
+    def _tick(self):
+        self.now += 1e-6
+        return self.now
+
+    def time(self):
+        return self._tick()
+
+    def monotonic(self):
+        return self._tick() - 1.7e9
+
+    perf_counter = monotonic
+
+    def time_ns(self):
+        return int(self._tick() * 1e9)
+
+    def monotonic_ns(self):
+        return int((self._tick() - 1.7e9) * 1e9)
+
+    perf_counter_ns = monotonic_ns
+
+    def __getattr__(self, name):
+        import time as _t
+        return getattr(_t, name)
+
+
+_time_proxy = _TimeProxy()
+
+
 class _ThreadingProxy:
     """`threading` as the library sees it."""
     Lock = SimLock
     RLock = SimRLock
+    Event = SimEvent
+    Condition = SimCondition
+    Semaphore = SimSemaphore
+    BoundedSemaphore = SimSemaphore
 
     def __getattr__(self, name):
         return getattr(_threading, name)
@@ -177,13 +339,30 @@ _threading_proxy = _ThreadingProxy()
 def _patch_library_locks(mods):
     for m in mods:
         d = m.__dict__
+        import time as _real_time
         for k, v in list(d.items()):
             if v is _threading:
                 d[k] = _threading_proxy
+            elif v is _real_time:
+                d[k] = _time_proxy
+            elif v is _real_time.sleep:
+                d[k] = _time_proxy.sleep
+            elif v is _real_time.time:
+                d[k] = _time_proxy.time
+            elif v is _real_time.monotonic:
+                d[k] = _time_proxy.monotonic
+            elif v is _real_time.perf_counter:
+                d[k] = _time_proxy.perf_counter
             elif v is _RealLock:
                 d[k] = SimLock
             elif v is _RealRLock:
                 d[k] = SimRLock
+            elif v is _threading.Event:
+                d[k] = SimEvent
+            elif v is _threading.Condition:
+                d[k] = SimCondition
+            elif v is _threading.Semaphore or v is _threading.BoundedSemaphore:
+                d[k] = SimSemaphore
 
 
 # ---------------------------------------------------------------------------
@@ -286,6 +465,10 @@ def fresh_library(patch_stream=False):
     mods = []
     # module-level locks are created while the bodies execute
     _threading.Lock, _threading.RLock = SimLock, SimRLock
+    _saved = (_threading.Event, _threading.Condition, _threading.Semaphore,
+              _threading.BoundedSemaphore)
+    _threading.Event, _threading.Condition = SimEvent, SimCondition
+    _threading.Semaphore = _threading.BoundedSemaphore = SimSemaphore
     try:
         for name in extra + _ORDER:
             m = sys.modules.get(name)
@@ -301,6 +484,9 @@ def fresh_library(patch_stream=False):
             mods.append(m)
     finally:
         _threading.Lock, _threading.RLock = _RealLock, _RealRLock
+        (_threading.Event, _threading.Condition, _threading.Semaphore,
+         _threading.BoundedSemaphore) = _saved
+    _time_proxy.reset()
     _patch_library_locks(mods)
     L.orig_resource_stream = L.coeffs.__dict__.get("resource_stream")
     if patch_stream and L.orig_resource_stream is not None:
